@@ -41,7 +41,26 @@ Definition enc_world (w : world) : T :=
             count_th (fun h => match h with THTick _ => true | _ => false end) w;
             Tnat (length (tasks w)); Tnat (length (queue w)); Tbool (bad w) ] ].
 
-Definition oz (b : bool) (z : Z) : option Z := if b then Some z else None.
+Definition obs_run (p : program) (gen_ev : bool) (scheds : list (list key)) (roots : list (nat * nat)) (n : nat) : T :=
+  enc_world (run p gen_ev scheds roots n).
 
-Definition obs_run (p : program) (gen_ev : bool) (rots : list nat) (roots : list (nat * nat)) (n : nat) : T :=
-  enc_world (run p gen_ev rots roots n).
+(* The observable of one case has some 10^3 nodes; elaborating the expected value as a Coq literal dominated the
+   run time, so both sides are reduced to two polynomial hashes (multiplier 31 mod 2^40, multiplier 37
+   mod 2^31; odd multipliers, so a difference in a single position always shows) and the length of the same
+   flattening: Tn z -> z+3, Tl l -> 1, items, 0.  The harness computes the same two numbers from the
+   implementation's observable. *)
+Fixpoint flatT (t : T) : list Z :=
+  match t with
+  | Tn z => [z + 3]
+  | Tl l => 1 :: (fix go (l : list T) : list Z := match l with [] => [0] | x :: r => flatT x ++ go r end) l
+  end.
+
+Definition M1 : Z := 1099511627775.   (* 2^40 - 1 *)
+Definition M2 : Z := 2147483647.      (* 2^31 - 1 *)
+Definition hash_with (M B : Z) (l : list Z) : Z := fold_left (fun h x => Z.land (B * h + x) M) l 7.
+
+Definition obs_hash (t : T) : T :=
+  let l := flatT t in Tl [Tn (hash_with M1 31 l); Tn (hash_with M2 37 l); Tnat (length l)].
+
+Definition hash_run (p : program) (gen_ev : bool) (scheds : list (list key)) (roots : list (nat * nat)) (n : nat) : T :=
+  obs_hash (obs_run p gen_ev scheds roots n).
